@@ -2195,7 +2195,9 @@ class InstRWInfoTable extends core.Task {
               break;
           }
 
-          if (op.zext)
+          // Zero extension is a property of a register; a memory-only operand must not leak it into the flags that
+          // are merged over all forms of the instruction (movlps m64, xmm vs movlps xmm, m64).
+          if (op.zext && op.reg)
             d.flags.ZExt = true;
 
           if (op.regIndexRel)
